@@ -602,19 +602,38 @@ func (ci *crdIpam) ByKeyAndIPRanges(key string, ipranges [][]nets.IPRange) ([]*F
 	var ipinfos []*FloatingIPInfo
 	if len(ipranges) != 0 {
 		ipinfos = make([]*FloatingIPInfo, len(ipranges))
-		// pickedIPSet is the ips picked for the previous ranges, ranges may overlap and each of them gets its own ip
-		pickedIPSet := sets.NewString()
+		// ranges may overlap and each of them gets its own ip: match ranges to the ips of key inside them, an ip
+		// answers one range only and a range gives way to another one if it can be answered by a different ip
+		candidates := make([][]string, len(ipranges))
 		for i, ranges := range ipranges {
 			walkIPRanges(ranges, func(ip net.IP) bool {
 				ipStr := ip.String()
-				fip, ok := ci.allocatedFIPs[ipStr]
-				if !ok || fip.Key != key || pickedIPSet.Has(ipStr) {
-					return false
+				if fip, ok := ci.allocatedFIPs[ipStr]; ok && fip.Key == key {
+					candidates[i] = append(candidates[i], ipStr)
 				}
-				ipinfos[i] = ci.toFloatingIPInfo(fip)
-				pickedIPSet.Insert(ipStr)
-				return true
+				return false
 			})
+		}
+		rangeOfIP := map[string]int{}
+		var answer func(i int, tried sets.String) bool
+		answer = func(i int, tried sets.String) bool {
+			for _, ipStr := range candidates[i] {
+				if tried.Has(ipStr) {
+					continue
+				}
+				tried.Insert(ipStr)
+				if j, taken := rangeOfIP[ipStr]; !taken || answer(j, tried) {
+					rangeOfIP[ipStr] = i
+					return true
+				}
+			}
+			return false
+		}
+		for i := range ipranges {
+			answer(i, sets.NewString())
+		}
+		for ipStr, i := range rangeOfIP {
+			ipinfos[i] = ci.toFloatingIPInfo(ci.allocatedFIPs[ipStr])
 		}
 	} else {
 		for _, fip := range ci.allocatedFIPs {
